@@ -122,20 +122,28 @@ def mkcal(k):
     G = rep_scalar(k.get('G', 0.0), k.get('Grepr'))
     nr = k.get('nrepr')              # representation of the scalar level / vrms / magnitude arguments
     pos = k.get('positional')        # vrms handed over positionally
+    # hardening item 9: an optional argument that carries its documented default (vrms=1, fixed_gain=0) is left out
+    # in some cases -- the device described is the same, so every law below must hold unchanged
+    gkw = {} if (k.get('omit_G') and k.get('G', 0.0) == 0) else {'fixed_gain': G}
+    omit_v = bool(k.get('omit_v')) and k.get('v') == 1
     if c == 'flat':
-        if pos:
+        if pos and gkw:
             return PC.FlatCalibration(rep_scalar(k['S'], nr), G)
-        return PC.FlatCalibration(rep_scalar(k['S'], nr), fixed_gain=G)
+        return PC.FlatCalibration(rep_scalar(k['S'], nr), **gkw)
     if c in ('from_spl', 'from_db', 'from_pascals'):
         x = rep_scalar(k['m'] if c == 'from_pascals' else k['L'], nr)
         v = rep_scalar(k['v'], nr)
         meth = getattr(PC.FlatCalibration, c)
-        return meth(x, v, fixed_gain=G) if pos else meth(x, vrms=v, fixed_gain=G)
+        if omit_v:
+            return meth(x, **gkw)
+        return meth(x, v, **gkw) if pos else meth(x, vrms=v, **gkw)
     if c == 'from_mv_pa':
         return PC.FlatCalibration.from_mv_pa(rep_scalar(k['m'], nr))
     if c == 'unity':
         return PC.FlatCalibration.unity()
     if c == 'as_attenuation':
+        if omit_v:
+            return PC.FlatCalibration.as_attenuation()
         return PC.FlatCalibration.as_attenuation(rep_scalar(k['v'], nr)) if pos else \
             PC.FlatCalibration.as_attenuation(vrms=rep_scalar(k['v'], nr))
     cls = PC.InterpCalibration if c.startswith('interp') else PC.PointCalibration
@@ -159,7 +167,7 @@ def mkcal(k):
             f, s = rep_array(f, r if r != 'f32' or all(_isint(v) for v in f) else None), rep_array(s, r if r != 'f32' else None)
         if k.get('phase') and c == 'interp':
             kw['phase'] = [0.01 * i for i in range(len(k['tbl']))]
-        cal = cls(f, s, G, **kw) if pos else cls(f, s, fixed_gain=G, **kw)
+        cal = cls(f, s, G, **kw) if (pos and gkw) else cls(f, s, **gkw, **kw)
         if k.get('mutate_inputs'):
             scribble(f)
             scribble(s)
@@ -176,8 +184,10 @@ def mkcal(k):
         kw.pop('reference', None)
     if meth == 'from_spl':
         kw.pop('reference', None)      # from_spl sets it itself
-    cal = getattr(cls, meth)(f, x, v, fixed_gain=G, **kw) if pos else \
-        getattr(cls, meth)(f, x, vrms=v, fixed_gain=G, **kw)
+    if k.get('omit_v') and k.get('scalar_vrms') and k['rows'][0][2] == 1:
+        cal = getattr(cls, meth)(f, x, **gkw, **kw)           # vrms left out: documented default 1 Vrms
+    else:
+        cal = getattr(cls, meth)(f, x, v, **gkw, **kw) if pos else getattr(cls, meth)(f, x, vrms=v, **gkw, **kw)
     if k.get('mutate_inputs'):
         for a in (f, x, v):
             scribble(a)
@@ -301,6 +311,8 @@ def run_query(cal, q, k=None):
         if o == 'att':
             return num(np.asarray(cal.get_attenuation(_freq(q), _num(q, 'v'), _num(q, 'L')), dtype=float)[()], atol=DB_ATOL)
         if o == 'gain':
+            if q.get('omit') and q['A'] == 0:
+                return num(np.asarray(cal.get_gain(_freq(q), _num(q, 'L')), dtype=float)[()], atol=DB_ATOL)
             if q.get('kw'):
                 return num(np.asarray(cal.get_gain(_freq(q), _num(q, 'L'), attenuation=_num(q, 'A')), dtype=float)[()], atol=DB_ATOL)
             return num(np.asarray(cal.get_gain(_freq(q), _num(q, 'L'), _num(q, 'A')), dtype=float)[()], atol=DB_ATOL)
@@ -311,7 +323,9 @@ def run_query(cal, q, k=None):
                 flb, fub = float(flb), float(fub)
             elif q.get('mr') == 'npint':
                 flb, fub = np.int64(flb), np.int64(fub)
-            if q.get('kw'):
+            if q.get('omit') and q['A'] == 0:
+                r = cal.get_mean_sf(flb, fub, _num(q, 'L'))
+            elif q.get('kw'):
                 r = cal.get_mean_sf(flb, fub, _num(q, 'L'), attenuation=_num(q, 'A'))
             else:
                 r = cal.get_mean_sf(flb, fub, _num(q, 'L'), _num(q, 'A'))
@@ -321,6 +335,8 @@ def run_query(cal, q, k=None):
             args, keeps = [fa], [np.array(q['fs'], dtype=float).reshape(np.shape(fa))]
             if o == 'sensv':
                 r = cal.get_sens(fa)
+            elif o == 'sfv' and q.get('omit') and q['A'] == 0:
+                r = cal.get_sf(fa, _num(q, 'L'))
             elif o == 'sfv':
                 r = cal.get_sf(fa, _num(q, 'L'), attenuation=_num(q, 'A')) if q.get('kw') else \
                     cal.get_sf(fa, _num(q, 'L'), _num(q, 'A'))
@@ -410,7 +426,11 @@ def check_laws(k, queries):
     cal = mkcal(k)
     flat = is_flat(k)
     tbl = None if flat else table(k)
-    G0 = cal.fixed_gain
+    G0 = k.get('G', 0.0)        # the gain the caller described (a constructor called without one has 0 dB: documented default)
+    if not flat:
+        f = law_table_attributes(cal, k, tbl)
+        if f:
+            return f
 
     def in_range(f):
         if flat:
@@ -454,9 +474,13 @@ def check_laws(k, queries):
             Lq, Aq, vq = (rep_scalar(x, q.get('nr')) for x in (L, A, v))
             get_db = cal.get_spl if q.get('spl') and has_spl(k) else cal.get_db
             sens = _try(lambda: cal.get_sens(fq))
-            sf = _try(lambda: cal.get_sf(fq, Lq, attenuation=Aq) if q.get('kw') else cal.get_sf(fq, Lq, Aq))
+            # an attenuation of 0 dB left out (documented default `attenuation=0`) is the same request
+            omit = bool(q.get('omit')) and A == 0
+            sf = _try(lambda: cal.get_sf(fq, Lq) if omit else cal.get_sf(fq, Lq, attenuation=Aq) if q.get('kw')
+                      else cal.get_sf(fq, Lq, Aq))
             dbv = _try(lambda: get_db(fq, vq))
-            gain = _try(lambda: cal.get_gain(fq, Lq, attenuation=Aq) if q.get('kw') else cal.get_gain(fq, Lq, Aq))
+            gain = _try(lambda: cal.get_gain(fq, Lq) if omit else cal.get_gain(fq, Lq, attenuation=Aq) if q.get('kw')
+                        else cal.get_gain(fq, Lq, Aq))
             att = _try(lambda: cal.get_attenuation(fq, vq, Lq))
             if not inside:
                 # outside the calibrated range: NaN or an error, never a level
@@ -499,8 +523,13 @@ def check_laws(k, queries):
                 cal.set_fixed_gain(G0)
                 if not (isinstance(c, float) and abs(db_of(c) - db_of(sf) - d) <= DB_TOL):
                     return f'fixed gain +{d!r} dB changed get_sf({f!r}, {L!r}) from {sf!r} to {c!r}'
-            if not (isinstance(gain, float) and abs(gain - db_of(sf)) <= DB_TOL):
-                return f'get_gain({f!r}, {L!r}, {A!r}) = {gain!r}, db(get_sf) = {db_of(sf)!r}'
+            sfx = _try(lambda: cal.get_sf(f, L, A))          # every argument spelled out
+            if not (isinstance(sfx, float) and abs(db_of(sf) - db_of(sfx)) <= DB_TOL):
+                return (f'get_sf({f!r}, {L!r}{"" if omit else ", " + repr(A)}) = {sf!r} as the caller spelled it, '
+                        f'get_sf({f!r}, {L!r}, {A!r}) = {sfx!r}')
+            if not (isinstance(gain, float) and abs(gain - db_of(sfx)) <= DB_TOL):
+                return (f'get_gain({f!r}, {L!r}{"" if omit else ", " + repr(A)}) = {gain!r}, '
+                        f'db(get_sf({f!r}, {L!r}, {A!r})) = {db_of(sfx)!r}')
         elif o in ('sensv', 'sfv', 'dbv'):
             # array (list, tuple, integer / float32 / 2-D / strided array, Series, DataFrame) = scalar, point by point
             f = law_array(cal, k, q)
@@ -509,7 +538,8 @@ def check_laws(k, queries):
         elif o == 'meansf':
             flb, fub, L, A = q['flb'], q['fub'], q['L'], q['A']
             fr = np.arange(flb, fub)
-            got = _try(lambda: cal.get_mean_sf(flb, fub, L, attenuation=A))
+            got = _try(lambda: cal.get_mean_sf(flb, fub, L) if (q.get('omit') and A == 0)
+                       else cal.get_mean_sf(flb, fub, L, attenuation=A))
             if flat:
                 want = _f(cal.get_sf(flb, L, A))
             else:
@@ -562,6 +592,23 @@ def check_laws(k, queries):
     return None
 
 
+def law_table_attributes(cal, k, tbl):
+    """"reproduce the table at its points", read from the object itself: the table a frequency-dependent calibration
+    reports (`frequency` / `sensitivity` attributes, any order) is the table it was built from.  Not asked when the
+    caller overwrote its own arrays afterwards (InterpCalibration's attributes are the caller's arrays)."""
+    if k.get('mutate_inputs') and k['c'].startswith('interp'):
+        return None
+    try:
+        fa = np.atleast_1d(np.asarray(cal.frequency, dtype=float)).ravel()
+        sa = np.atleast_1d(np.asarray(cal.sensitivity, dtype=float)).ravel()
+    except AttributeError as e:
+        return f'{k["c"]}: the calibration object does not report the table it was built from ({e})'
+    got = sorted(zip(fa.tolist(), sa.tolist()))
+    if len(got) != len(tbl) or any(a[0] != b[0] or not abs(a[1] - b[1]) <= DB_TOL for a, b in zip(got, tbl)):
+        return f'{k["c"]}: the object reports the table {got[:4]!r}..., it was built from {list(tbl[:4])!r}...'
+    return None
+
+
 def law_array(cal, k, q):
     """the array forms answer, position by position, what the scalar form answers (NaN / error included)"""
     import pandas as pd
@@ -573,7 +620,8 @@ def law_array(cal, k, q):
         got = _try(lambda: cal.get_sens(rep_array(fs, q.get('ar'))))
     elif o == 'sfv':
         one = [_try(lambda: cal.get_sf(f, L, A)) for f in fs]
-        got = _try(lambda: cal.get_sf(rep_array(fs, q.get('ar')), L, A))
+        got = _try(lambda: cal.get_sf(rep_array(fs, q.get('ar')), L) if (q.get('omit') and A == 0)
+                   else cal.get_sf(rep_array(fs, q.get('ar')), L, A))
     else:
         one = [_try(lambda: cal.get_db(f, v)) for f, v in zip(fs, q['vs'])]
         if q.get('series'):
@@ -641,10 +689,11 @@ def order_rows(rng, n):
 
 def gen_ctor(rng, kind):
     G = rng.choice([0.0, 0.0, rnd(rng, -60, 60), float(rng.randint(-60, 60))])
-    extra = {'Grepr': rng.choice(NUM_REPRS), 'nrepr': rng.choice(NUM_REPRS), 'positional': rng.random() < 0.3}
+    extra = {'Grepr': rng.choice(NUM_REPRS), 'nrepr': rng.choice(NUM_REPRS), 'positional': rng.random() < 0.3,
+             'omit_v': rng.random() < 0.6, 'omit_G': rng.random() < 0.6}     # (effective when vrms == 1 / gain == 0)
     if kind == 'flat':
         c = rng.choice(['flat', 'from_spl', 'from_db', 'from_pascals', 'from_mv_pa', 'unity', 'as_attenuation'])
-        v = rng.choice([1.0, 0.1, 2.0, rnd(rng, 1e-3, 10)])
+        v = rng.choice([1.0, 1.0, 0.1, 2.0, rnd(rng, 1e-3, 10)])
         if c == 'flat':
             return dict(extra, c=c, S=rng.choice([rnd(rng, -60, 160), float(rng.randint(-60, 160))]), G=G)
         if c in ('from_spl', 'from_db'):
@@ -685,7 +734,7 @@ def gen_ctor(rng, kind):
     if extra['repr'] == 'f32' and kind == 'point':
         extra['repr'] = 'ndarray'
     scalar_v = rng.random() < 0.5
-    v0 = rng.choice([1.0, 0.1, 2.0, rnd(rng, 1e-3, 10)])
+    v0 = rng.choice([1.0, 1.0, 0.1, 2.0, rnd(rng, 1e-3, 10)])
     rows = []
     for i in order:
         x = rnd(rng, 1e-3, 50) if c.endswith('pascals') else (float(rng.randint(20, 130)) if integer else rnd(rng, 20, 130))
@@ -781,13 +830,14 @@ def gen_queries(rng, k, nq):
                     flb = rng.randint(lo, max(lo, hi))
                     fub = flb - rng.randint(0, 2)
             qs.append({'op': o, 'flb': int(flb), 'fub': int(fub), 'L': L, 'A': A, 'nr': how['nr'], 'kw': how['kw'],
-                       'mr': rng.choice([None, 'float', 'npint'])})
+                       'omit': how['omit'], 'mr': rng.choice([None, 'float', 'npint'])})
         elif o in ('sensv', 'sfv', 'dbv'):
             n = rng.randint(0, 6) if not k['c'].startswith('point') else rng.randint(1, 6)
             ff = [pick_freq(rng, k) for _ in range(n)]
             if k['c'].startswith('point') and rng.random() < 0.6:
                 ff = [rng.choice(fs) for _ in range(n)]
-            q = {'op': o, 'fs': ff, 'L': L, 'A': A, 'ar': rng.choice(ARR_REPRS), 'nr': how['nr'], 'kw': how['kw']}
+            q = {'op': o, 'fs': ff, 'L': L, 'A': A, 'ar': rng.choice(ARR_REPRS), 'nr': how['nr'], 'kw': how['kw'],
+                 'omit': how['omit']}
             if q['ar'] == 'series' and not k['c'].startswith('point') and n == 0:
                 q['ar'] = None
             if o == 'dbv':
